@@ -138,6 +138,27 @@ Theorem C16_unencodable_is_fatal :
 Proof. exact unencodable_is_fatal. Qed.
 Print Assumptions C16_unencodable_is_fatal.
 
+(* every invocationRef in the shipped arguments has its invocation in the
+   dependency set addInvocation records (user arguments never contain references),
+   and that set is exactly the Results among the arguments *)
+Theorem C16_refs_in_deps : forall (V : Type) known (args a1 : list (arg V)) i,
+  subst_args V known args = SOk a1 -> In (ARef i) a1 ->
+  In (ARef i) args \/ In i (record_deps V args).
+Proof. exact refs_in_deps. Qed.
+Theorem C16_deps_are_results : forall (V : Type) (args : list (arg V)) i,
+  In i (record_deps V args) <-> In (AResult i) args.
+Proof. exact deps_are_results. Qed.
+Print Assumptions C16_refs_in_deps.
+
+(* the executor's walk over invocationDeps followed by the reversed compile loop
+   leaves a fresh worker with every requested invocation compiled and never meets
+   an invalid reference: finite sweep (vm_compute) over every dependency DAG on up
+   to 4 invocations and every set of roots *)
+Theorem C16_fresh_ship_ok_upto4 : forall n g roots, (n <= 4)%nat ->
+  In g (dags n) -> In roots (subsets (map fst g)) -> fresh_ok g roots = true.
+Proof. exact fresh_ship_ok_upto4_each. Qed.
+Print Assumptions C16_fresh_ship_ok_upto4.
+
 Theorem C16_illtyped_rejected :
   forall (V B : Type) (genc : ctype -> V -> B) (gdec : ctype -> B -> option V)
          known compiled ps (args : list (arg V)),
